@@ -456,7 +456,10 @@ def rule_r4(ctx, repo):
                 vals = [e["val"] for e in it.stores if e["obj"] is me and e["attr"] == "_values"]
                 flags = [e["val"] for e in it.stores if e["obj"] is me and e["attr"] == "_is_relative"]
                 want = TV(kind, "sorted", [inp])
-                if len(vals) != 1 or len(flags) != 1 or not isinstance(vals[0], TV) or not isinstance(flags[0], K):
+                if not vals or not flags:
+                    ctx.violation("R4", cons, "the constructor accepts the input but does not store %s" % (
+                        " and ".join(n for n, x in (("the validated values", vals), ("the is_relative flag", flags)) if not x)), iloc)
+                elif len(vals) != 1 or len(flags) != 1 or not isinstance(vals[0], TV) or not isinstance(flags[0], K):
                     ctx.undecided("R4", cons, "constructor state not interpretable: _values=%r _is_relative=%r" % (vals, flags), iloc)
                 else:
                     ctx.check(vals[0] == want and flags[0] == K(rel), "R4", cons,
@@ -469,6 +472,14 @@ def rule_r4(ctx, repo):
                     names = sorted({exc_name(n) or "?" for _, n in raises})
                     ctx.check(names == ["TypeError"] if raises else None, "R4", cons, "incompatible index type raises TypeError",
                               "incompatible index type raises %s, expected TypeError" % names, iloc)
+    # documented default: values are steps relative to the cutoff unless is_relative=False is given
+    it = new_interp(repo)
+    me = Obj(cls, mutable=True)
+    rets, raises, _ = irun(it, k.module, init, {"self": me, "values": TV("pandas.Int64Index", "input", ["values"])}, cls, k)
+    flags = [e["val"] for e in it.stores if e["obj"] is me and e["attr"] == "_is_relative"]
+    ctx.check(flags == [K(True)] if rets and flags and all(isinstance(f, K) for f in flags) else (None if rets else False), "R4",
+              "ForecastingHorizon.__init__[default is_relative]", "a horizon built without the flag is relative",
+              "a horizon built without `is_relative` gets %r (documented default: relative)" % (flags,), iloc)
     for label, val in (("int", Lin.c(1)), ("None", K(None)), ("str", K("True"))):
         it = new_interp(repo)
         me = Obj(cls, mutable=True)
@@ -561,6 +572,16 @@ def rule_r5(ctx, repo):
                       "horizon is changed: %r -> %r" % (me, vals), loc)
             for s, v in rets:
                 nonempty(it, s, v, cons + ":non-empty")
+    # default: absolute horizons are admitted unless the caller asks for enforce_relative
+    it = new_interp(repo)
+    me = it.make_fh(STEPS, False)
+    rets, raises, _ = irun(it, mod, fn, {"fh": me})
+    vals = distinct([v for _, v in rets])
+    if not vals:
+        no_result(ctx, "R5", "check_fh[absolute horizon,default]", raises, "an absolute horizon is rejected by default", loc)
+    else:
+        ctx.check(all(v == me for v in vals) if all(it.is_fh(v) for v in vals) else None, "R5", "check_fh[absolute horizon,default]",
+                  "absolute horizon returned unchanged by default", "absolute horizon becomes %r by default" % (vals,), loc)
     # everything else is wrapped as a *relative* horizon built by the validating constructor
     for kind in ("builtins.list", "builtins.int", "numpy.ndarray", "pandas.Int64Index"):
         for enforce in (False, True):
